@@ -146,3 +146,31 @@ def family_soft_struct(tier, seed, n=None):
         ops.append({"op": "call", "call": mcall()})
         out.append({"id": "soft/%s/%s/%d" % (kind, "core" if core else "s%d" % seed, t), "world": world, "ops": ops, "tags": []})
     return out
+
+
+def family_soft_merge(tier, seed, n=None):
+    """a soft constraint lands in one set of related variables; a LATER statement joins that set with the set of a list element
+    named by a literal subscript (a <= l[2], either operand order): the soft constraints of both sides stay applicable - top-level,
+    guarded, and inline ones"""
+    out = []
+    n = n or (6 if tier == "quick" else 48)
+    SUBL = lambda i: {"k": "sub", "l": "l", "i": lit(i), "p": ""}
+    for t in range(n):
+        rnd = random.Random(7300 + t + (seed if t >= n // 2 else 0) * 1000)
+        ix = rnd.choice([0, 2])
+        va, vl = rnd.randrange(4), rnd.randrange(1, 4)
+        fields = [fld("a", 2, False), fld("k", 2, False, rand=False, init=rnd.randrange(4)),
+                  {"name": "l", "kind": "list", "w": 2, "signed": False, "rand": True, "init": [0, 0, 0], "randsz": False, "cap": 4}]
+        soft_a = SOFT(B("eq", F("a"), lit(va)))
+        if t % 3 == 1:
+            soft_a = {"k": "if", "arms": [{"c": B("le", F("k"), lit(1)), "body": [soft_a]}], "els": [SOFT(B("ne", F("a"), lit(va)))]}
+        join = B(rnd.choice(["le", "ne", "ge"]), F("a"), SUBL(ix)) if t % 2 == 0 else B(rnd.choice(["le", "ne"]), SUBL(ix), F("a"))
+        body = [soft_a, E(B("ne", SUBL(ix), lit(rnd.randrange(4)))), SOFT(B("eq", SUBL(ix), lit(vl))), E(join)]
+        world = one_class_world(fields, body)
+        ops = [{"op": "construct", "o": "o1"}]
+        for rep in range(3):
+            ops.append({"op": "set", "p": "o1.k", "v": bits(rnd.randrange(4), 2)})
+            ops.append({"op": "call", "call": mcall()})
+            ops.append({"op": "call", "call": wcall([SOFT(B("eq", F("a"), lit((va + 1 + rep) % 4)))])})
+        out.append({"id": "soft/merge/%d" % t, "world": world, "ops": ops, "tags": []})
+    return out
